@@ -156,6 +156,10 @@ def specAccepts (d : Doc) (r : Req) (o : Outcome) : Bool :=
     m = r.method && cs.any (fun c => c.template = t && paramsAgree c.params ps && c.server = sv)
   | _, _ => false
 
+/-- percent-encoded requests: "the request path" of the property is read either way — escaped (values are escaped strings)
+    or decoded — and an outcome is accepted when it satisfies the property under one of the two readings -/
+def specAcceptsW (d : Doc) (w : Wire) (o : Outcome) : Bool := specAccepts d w.raw o || specAccepts d w.req o
+
 /-! ## exclusion predicates (known-finding classes) -/
 
 inductive RouterKind | legacy | gorilla
